@@ -328,6 +328,11 @@ fn pick_mode(cs: &mut Cs) -> ModMode {
     }
 }
 
+/// `modules` with result ids occasionally 0 / 0x7fffffff / 0x80000000 / 0xffffffff
+fn sub_edge_ids(input: &[u8], st: &mut Stats) -> R {
+    with_edge_ids(|| sub_modules(input, st))
+}
+
 fn sub_modules(input: &[u8], st: &mut Stats) -> R {
     let mut cs = Cs::new(input);
     let mode = pick_mode(&mut cs);
@@ -468,6 +473,10 @@ pub const SUBS: &[Sub] = &[
         name: "modules",
         f: sub_modules,
     },
+    Sub {
+        name: "edge-ids",
+        f: sub_edge_ids,
+    },
 ];
 
 pub fn run(ctx: &Ctx) {
@@ -475,6 +484,7 @@ pub fn run(ctx: &Ctx) {
     drive_enum(ctx, &SUBS[0], sweep::cases().len() as u64);
     drive_enum(ctx, &SUBS[1], ctx.n(60, 30_000));
     drive_random(ctx, &SUBS[2], ctx.n(40_000, 20_000_000), 1200);
+    drive_random(ctx, &SUBS[3], ctx.n(10_000, 5_000_000), 1200);
     if !ctx.quick() && !ctx.failed() {
         crate::fuzzing::drive_fuzz(ctx, "bytes", 500_000);
     }
